@@ -311,112 +311,136 @@ func (c *Ctx) classifyMapRange(mr mapRange) (string, string) {
 	var problems []string
 	var notes []string
 	var appendsTo []ssa.Value
+	var scan func(in ssa.Instruction, inHelper bool, depth int)
+	scan = func(in ssa.Instruction, inHelper bool, depth int) {
+		switch x := in.(type) {
+		case *ssa.MapUpdate:
+			switch {
+			case key != nil && (resolveArg(x.Key) == key || AccessPath(resolveArg(x.Key)) == AccessPath(key)):
+				notes = append(notes, "keyed write")
+			case isZeroSizedOrTrue(x.Value):
+				notes = append(notes, "set insert")
+			case c.rootClassDeep(x.Map) == "fresh" && fromElem(x.Map):
+				notes = append(notes, "write into the element's own fresh map")
+			case isIterationLocal(resolveArg(rootOf(x.Map)), mr):
+				notes = append(notes, "write into a map made in this iteration")
+			case valueIsFunctionOfKey(x.Key, x.Value):
+				notes = append(notes, "value is a function of the key")
+			default:
+				problems = append(problems, "map write whose key is not the range key @ "+c.InstrPos(x))
+			}
+		case *ssa.Store:
+			if _, isAlloc := x.Addr.(*ssa.Alloc); isAlloc {
+				return
+			}
+			root := resolveArg(rootOf(x.Addr))
+			switch {
+			case isElem(root) || fromElem(root) && !isSliceWeb(root):
+				notes = append(notes, "element-local store")
+			case indexStoreSorted(c, x, mr):
+				notes = append(notes, "collect-then-sort")
+			case c.rootClassDeep(x.Addr) == "fresh":
+				if a, okA := root.(*ssa.Alloc); okA && (mr.inBody(a.Block()) || inHelper) || isIterationLocal(root, mr) {
+					notes = append(notes, "store into an object made in this iteration")
+				} else if isVariadicArray(root) {
+					// argument packing
+				} else {
+					// a fresh object made before the loop and written in every iteration: last iteration wins
+					problems = append(problems, "store into an object that outlives the iteration @ "+c.InstrPos(x))
+				}
+			default:
+				owner, f, _ := fieldOf(x.Addr)
+				if f != nil && f.Name() == "Errors" {
+					notes = append(notes, "error accumulation")
+					return
+				}
+				problems = append(problems, fmt.Sprintf("store to %s of a loop-invariant object @ %s", fieldKey(owner, f), c.InstrPos(x)))
+			}
+		case *ssa.Return:
+			if inHelper {
+				return // returning from an inlined helper ends the helper, not the loop
+			}
+			problems = append(problems, "returns from inside the loop (first match wins) @ "+c.InstrPos(x))
+		case *ssa.Send, *ssa.Go:
+			problems = append(problems, "concurrency inside the loop")
+		case ssa.CallInstruction:
+			com := x.Common()
+			if bi, okb := com.Value.(*ssa.Builtin); okb {
+				if bi.Name() == "append" {
+					if call, okc := in.(*ssa.Call); okc {
+						appendsTo = append(appendsTo, call)
+					}
+				}
+				if bi.Name() == "delete" {
+					if key != nil && com.Args[1] == key {
+						notes = append(notes, "keyed delete")
+					} else {
+						problems = append(problems, "delete with a key other than the range key")
+					}
+				}
+				return
+			}
+			// a private helper called from the body is scanned as if it were written here (inline.go)
+			if cal := com.StaticCallee(); cal != nil && cal.Parent() == nil && helperOf(cal) != nil && depth < 3 {
+				inlined := true
+				for _, st := range helperOf(cal).sites {
+					if !mr.inBody(st.Block()) && !inHelper {
+						inlined = false
+					}
+				}
+				if inlined {
+					for _, hb := range cal.Blocks {
+						for _, hin := range hb.Instrs {
+							scan(hin, true, depth+1)
+						}
+					}
+					return
+				}
+			}
+			for _, cal := range c.Callees(x) {
+				if !c.isRepoFn(cal) {
+					if cal.Pkg != nil {
+						switch cal.Pkg.Pkg.Path() {
+						case "fmt":
+							if strings.HasPrefix(cal.Name(), "Fprint") || strings.HasPrefix(cal.Name(), "Print") {
+								problems = append(problems, "writes output in iteration order @ "+c.InstrPos(x))
+							}
+						case "io", "os":
+							problems = append(problems, "I/O in iteration order @ "+c.InstrPos(x))
+						}
+					}
+					continue
+				}
+				for _, w := range c.WritesOf(cal) {
+					switch {
+					case w.Root == "io":
+						problems = append(problems, fmt.Sprintf("%s writes output (%s)", c.FnName(cal), w.Field))
+					case strings.HasPrefix(w.Field, "mapset:"):
+						// set insert: insertion order is not observable
+					case strings.HasSuffix(w.Field, ".Errors"):
+						// error accumulation: sorted at the boundary
+					case strings.HasPrefix(w.Root, "p"):
+						var idx int
+						fmt.Sscanf(w.Root, "p%d", &idx)
+						actual := actualArgs(x)
+						if idx < len(actual) && (fromElem(actual[idx]) || c.rootClass(mr.fn, actual[idx]) == "fresh" || isIterationLocal(rootOf(actual[idx]), mr)) {
+							// writes only into the element / a fresh object
+						} else {
+							problems = append(problems, fmt.Sprintf("%s writes %s of a loop-invariant argument @ %s", c.FnName(cal), w.Field, c.InstrPos(x)))
+						}
+					default:
+						problems = append(problems, fmt.Sprintf("%s writes %s (%s) @ %s", c.FnName(cal), w.Field, w.Root, c.InstrPos(x)))
+					}
+				}
+			}
+		}
+	}
 	for _, b := range mr.fn.Blocks {
 		if !mr.inBody(b) {
 			continue
 		}
 		for _, in := range b.Instrs {
-			switch x := in.(type) {
-			case *ssa.MapUpdate:
-				switch {
-				case key != nil && (x.Key == key || AccessPath(x.Key) == AccessPath(key)):
-					notes = append(notes, "keyed write")
-				case isZeroSizedOrTrue(x.Value):
-					notes = append(notes, "set insert")
-				case c.rootClass(mr.fn, x.Map) == "fresh" && fromElem(x.Map):
-					notes = append(notes, "write into the element's own fresh map")
-				case isIterationLocal(rootOf(x.Map), mr):
-					notes = append(notes, "write into a map made in this iteration")
-				case valueIsFunctionOfKey(x.Key, x.Value):
-					notes = append(notes, "value is a function of the key")
-				default:
-					problems = append(problems, "map write whose key is not the range key @ "+c.InstrPos(x))
-				}
-			case *ssa.Store:
-				if _, isAlloc := x.Addr.(*ssa.Alloc); isAlloc {
-					continue
-				}
-				root := rootOf(x.Addr)
-				switch {
-				case isElem(root) || fromElem(root) && !isSliceWeb(root):
-					notes = append(notes, "element-local store")
-				case indexStoreSorted(c, x, mr):
-					notes = append(notes, "collect-then-sort")
-				case c.rootClass(mr.fn, x.Addr) == "fresh":
-					if a, okA := root.(*ssa.Alloc); okA && mr.inBody(a.Block()) || isIterationLocal(root, mr) {
-						notes = append(notes, "store into an object made in this iteration")
-					} else if isVariadicArray(root) {
-						// argument packing
-					} else {
-						// a fresh object made before the loop and written in every iteration: last iteration wins
-						problems = append(problems, "store into an object that outlives the iteration @ "+c.InstrPos(x))
-					}
-				default:
-					owner, f, _ := fieldOf(x.Addr)
-					if f != nil && f.Name() == "Errors" {
-						notes = append(notes, "error accumulation")
-						continue
-					}
-					problems = append(problems, fmt.Sprintf("store to %s of a loop-invariant object @ %s", fieldKey(owner, f), c.InstrPos(x)))
-				}
-			case *ssa.Return:
-				problems = append(problems, "returns from inside the loop (first match wins) @ "+c.InstrPos(x))
-			case *ssa.Send, *ssa.Go:
-				problems = append(problems, "concurrency inside the loop")
-			case ssa.CallInstruction:
-				com := x.Common()
-				if bi, okb := com.Value.(*ssa.Builtin); okb {
-					if bi.Name() == "append" {
-						if call, okc := in.(*ssa.Call); okc {
-							appendsTo = append(appendsTo, call)
-						}
-					}
-					if bi.Name() == "delete" {
-						if key != nil && com.Args[1] == key {
-							notes = append(notes, "keyed delete")
-						} else {
-							problems = append(problems, "delete with a key other than the range key")
-						}
-					}
-					continue
-				}
-				for _, cal := range c.Callees(x) {
-					if !c.isRepoFn(cal) {
-						if cal.Pkg != nil {
-							switch cal.Pkg.Pkg.Path() {
-							case "fmt":
-								if strings.HasPrefix(cal.Name(), "Fprint") || strings.HasPrefix(cal.Name(), "Print") {
-									problems = append(problems, "writes output in iteration order @ "+c.InstrPos(x))
-								}
-							case "io", "os":
-								problems = append(problems, "I/O in iteration order @ "+c.InstrPos(x))
-							}
-						}
-						continue
-					}
-					for _, w := range c.WritesOf(cal) {
-						switch {
-						case w.Root == "io":
-							problems = append(problems, fmt.Sprintf("%s writes output (%s)", c.FnName(cal), w.Field))
-						case strings.HasPrefix(w.Field, "mapset:"):
-							// set insert: insertion order is not observable
-						case strings.HasSuffix(w.Field, ".Errors"):
-							// error accumulation: sorted at the boundary
-						case strings.HasPrefix(w.Root, "p"):
-							var idx int
-							fmt.Sscanf(w.Root, "p%d", &idx)
-							actual := actualArgs(x)
-							if idx < len(actual) && (fromElem(actual[idx]) || c.rootClass(mr.fn, actual[idx]) == "fresh" || isIterationLocal(rootOf(actual[idx]), mr)) {
-								// writes only into the element / a fresh object
-							} else {
-								problems = append(problems, fmt.Sprintf("%s writes %s of a loop-invariant argument @ %s", c.FnName(cal), w.Field, c.InstrPos(x)))
-							}
-						default:
-							problems = append(problems, fmt.Sprintf("%s writes %s (%s) @ %s", c.FnName(cal), w.Field, w.Root, c.InstrPos(x)))
-						}
-					}
-				}
-			}
+			scan(in, false, 0)
 		}
 	}
 	// appends: error slices are sorted at the boundary; others must reach a sort
@@ -777,6 +801,10 @@ func ruleErrTotal(c *Ctx) []Obligation {
 func loopCarried(app *ssa.Call, mr mapRange) bool {
 	seen := map[ssa.Value]bool{}
 	carried := false
+	// the blocks of a private helper inlined into the body belong to the iteration (inline.go)
+	inBody := func(b *ssa.BasicBlock) bool {
+		return mr.inBody(b) || (b.Parent() != mr.fn && helperOf(b.Parent()) != nil)
+	}
 	var walk func(v ssa.Value, d int)
 	walk = func(v ssa.Value, d int) {
 		if v == nil || seen[v] || d > 16 || carried {
@@ -785,7 +813,7 @@ func loopCarried(app *ssa.Call, mr mapRange) bool {
 		seen[v] = true
 		switch x := v.(type) {
 		case *ssa.Phi:
-			if x.Block() == mr.header || !mr.inBody(x.Block()) {
+			if x.Block() == mr.header || !inBody(x.Block()) {
 				carried = true
 				return
 			}
@@ -798,12 +826,12 @@ func loopCarried(app *ssa.Call, mr mapRange) bool {
 			}
 		case *ssa.UnOp:
 			// load of a field or cell
-			if a, ok := x.X.(*ssa.Alloc); ok && !mr.inBody(a.Block()) {
+			if a, ok := x.X.(*ssa.Alloc); ok && !inBody(a.Block()) {
 				carried = true
 			}
 			if owner, f, base := fieldOf(x.X); f != nil {
 				_ = owner
-				r := rootOf(base)
+				r := resolveArg(rootOf(base))
 				if !isIterationLocal(r, mr) && !(mr.next != nil && derivesFrom(r, func(y ssa.Value) bool {
 					ex, ok := y.(*ssa.Extract)
 					return ok && ex.Tuple == ssa.Value(mr.next)
